@@ -162,4 +162,144 @@ theorem c04_sound (c : Consumer) (x : Ctx) (a : Artefact) (hs : Sane x) (h : acc
     obtain ⟨hv, _, h1, h2, _, _, _⟩ := acceptAccess_ok hi
     simp [honourable, Consumer.purpose, hasMarker, inWindow, verifies_signed hv, h1, h2]
 
+/-- without any assumption on the environment: an honoured artefact passed signature verification
+and carries the marker of the consumer's kind -/
+theorem accepts_core (c : Consumer) (x : Ctx) (a : Artefact) (h : accepts c x a = true) :
+    verifies x.dep a = true ∧ hasMarker c.purpose a.claims = true := by
+  cases c with
+  | session =>
+    obtain ⟨info, hi⟩ := isOk_iff.mp h
+    obtain ⟨hg, _, _⟩ := acceptSession_ok hi
+    obtain ⟨hv, _, hb, _⟩ := getAuthInfo_ok hg
+    exact ⟨hv, by simp [Consumer.purpose, hasMarker, (auth_core hv hb).2.1, want_session]⟩
+  | upgrade =>
+    obtain ⟨cl, hi⟩ := isOk_iff.mp h
+    obtain ⟨hv, _, hb, _⟩ := acceptUpgrade_ok hi
+    exact ⟨hv, by simp [Consumer.purpose, hasMarker, (auth_core hv hb).2.1]⟩
+  | cliVerify =>
+    obtain ⟨info, hi⟩ := isOk_iff.mp h
+    obtain ⟨hg, _⟩ := acceptCliVerify_ok hi
+    obtain ⟨hv, _, hb, _⟩ := getAuthInfo_ok hg
+    exact ⟨hv, by simp [Consumer.purpose, hasMarker, (auth_core hv hb).2.1, want_cliV]⟩
+  | cliSend =>
+    obtain ⟨info, hi⟩ := isOk_iff.mp h
+    obtain ⟨hg, _, _⟩ := acceptCliSend_ok hi
+    obtain ⟨hv, _, hb, _⟩ := getAuthInfo_ok hg
+    exact ⟨hv, by simp [Consumer.purpose, hasMarker, (auth_core hv hb).2.1, want_cliS]⟩
+  | storage =>
+    obtain ⟨data, hi⟩ := isOk_iff.mp h
+    obtain ⟨_, hsv, _⟩ := acceptStorage_ok hi
+    obtain ⟨hv, _, hb⟩ := storageVerify_ok hsv
+    have := (auth_core hv hb).2.1
+    simp at this
+    exact ⟨hv, by simp [Consumer.purpose, hasMarker, this]⟩
+  | code =>
+    obtain ⟨w, hi⟩ := isOk_iff.mp h
+    obtain ⟨hv, _, _, hcc, _⟩ := acceptCode_ok hi
+    exact ⟨hv, by simp [Consumer.purpose, hasMarker, (codeChecks_ok hcc).2.2.2]⟩
+  | access =>
+    obtain ⟨u, hi⟩ := isOk_iff.mp h
+    obtain ⟨hv, _, _, h2, _⟩ := acceptAccess_ok hi
+    exact ⟨hv, by simp [Consumer.purpose, hasMarker, h2]⟩
+
+/-! ### the producer × consumer matrix -/
+
+/-- every claims object some producer of keymasterd can mint, for every choice of its parameters
+(deployment, user, level, times, client, scope, nonce, redirect, audiences, …) -/
+inductive Minted : Kind → Wire → Prop
+  | session (d : Deployment) (user : Str) (level t dur : Int) : Minted .session (emitSession d user level t dur)
+  | cli (d : Deployment) (user : Str) (t life : Int) : Minted .cli (emitCli d user t life)
+  | storage (d : Deployment) (user : Str) (ty : Int) (data : Str) (exp t : Int) :
+      Minted .storage (emitStorage d user ty data exp t)
+  | code (d : Deployment) (p : CodeParams) (t : Int) : Minted .code (emitCode d p t)
+  | access (d : Deployment) (c : Wire) (t : Int) : Minted .access (emitAccess d c t)
+  | idToken (d : Deployment) (c : Wire) (client : Str) (t : Int) : Minted .idToken (emitId d c client t)
+
+/-- the kind markers a minted artefact carries: its `token_type` and `type` claims as decoded -/
+theorem minted_markers {k : Kind} {w : Wire} (h : Minted k w) :
+    (gStr w .tokenType, gStr w .typ) =
+      match k with
+      | .session => (sessionType, []) | .cli => (cliType, []) | .storage => (storageType, [])
+      | .code => ([], codeType) | .access => ([], accessType) | .idToken => ([], []) := by
+  cases h <;> simp [emitSession, emitCli, emitAuth, emitStorage, emitCode, emitAccess, emitId, gStr, decStr]
+
+/-- **Matrix.** An artefact minted as kind `k` — whatever the producer's parameters, whoever signed
+it, under whatever algorithm — is rejected by every consumer whose purpose is another kind, in every
+context. (In particular an ID token is accepted nowhere.) -/
+theorem c04_matrix (k : Kind) (w : Wire) (hm : Minted k w) (c : Consumer) (hk : c.purpose ≠ k)
+    (x : Ctx) (alg sigAlg : Alg) (signedBy : Option Nat) :
+    accepts c x { claims := w, alg := alg, signedBy := signedBy, sigAlg := sigAlg } = false := by
+  cases hacc : accepts c x { claims := w, alg := alg, signedBy := signedBy, sigAlg := sigAlg }
+  · rfl
+  · exfalso
+    have hmk := (accepts_core c x _ hacc).2
+    have hmm := minted_markers hm
+    simp only at hmk
+    have e1 : sessionType ≠ [] := by decide
+    have e2 : cliType ≠ [] := by decide
+    have e3 : storageType ≠ [] := by decide
+    have e4 : codeType ≠ [] := by decide
+    have e5 : accessType ≠ [] := by decide
+    have d12 : sessionType ≠ cliType := by decide
+    have d13 : sessionType ≠ storageType := by decide
+    have d23 : cliType ≠ storageType := by decide
+    have d45 : codeType ≠ accessType := by decide
+    cases k <;> cases c <;>
+      simp_all [Consumer.purpose, hasMarker, Ne.symm d12, Ne.symm d13, Ne.symm d23, Ne.symm d45]
+
+/-! ### keys and algorithms -/
+
+/-- **Key.** If no trusted key made the signature under the scheme the header names and that is
+the key's own algorithm, every consumer rejects, whatever the claims say. -/
+theorem c04_key (c : Consumer) (x : Ctx) (a : Artefact) (h : signedByDeployment x.dep a = false) :
+    accepts c x a = false := by
+  cases hacc : accepts c x a
+  · rfl
+  · have := verifies_signed (accepts_core c x a hacc).1
+    rw [this] at h; cases h
+
+theorem signed_false_iff {d : Deployment} {a : Artefact} :
+    signedByDeployment d a = false ↔
+      ∀ k ∈ d.trusted, ¬(a.signedBy = some k.id ∧ algOf k.ty = some a.alg ∧ a.sigAlg = a.alg) := by
+  simp [signedByDeployment, and_assoc]
+
+/-- re-signing with a key that is not one of the deployment's -/
+theorem c04_key_foreign (c : Consumer) (x : Ctx) (a : Artefact)
+    (h : ∀ k ∈ x.dep.trusted, a.signedBy ≠ some k.id) : accepts c x a = false := by
+  apply c04_key
+  rw [signed_false_iff]
+  intro k hk hh
+  exact h k hk hh.1
+
+/-- algorithm substitution: `none`, HMAC (e.g. keyed with the public key) and every algorithm keymaster
+derives for no key type are rejected even if a trusted key "made" the signature -/
+theorem c04_key_alg (c : Consumer) (x : Ctx) (a : Artefact)
+    (h : a.alg = .none ∨ a.alg = .HS256 ∨ a.alg = .RS384 ∨ a.alg = .RS512 ∨ a.alg = .PS256 ∨ a.alg = .other) :
+    accepts c x a = false := by
+  apply c04_key
+  rw [signed_false_iff]
+  intro k _ hh
+  have h2 := hh.2.1
+  rcases h with h | h | h | h | h | h <;> rw [h] at h2 <;> cases hk : k.ty <;> rw [hk] at h2 <;> cases h2
+
+/-- key-type confusion (RS↔ES …): a header algorithm that is not the signing key's own, or a
+signature produced under another scheme than the header says -/
+theorem c04_key_confusion (c : Consumer) (x : Ctx) (a : Artefact)
+    (h : a.sigAlg ≠ a.alg ∨ ∀ k ∈ x.dep.trusted, a.signedBy = some k.id → algOf k.ty ≠ some a.alg) :
+    accepts c x a = false := by
+  apply c04_key
+  rw [signed_false_iff]
+  intro k hk hh
+  rcases h with h | h
+  · exact h hh.2.2
+  · exact h k hk hh.1 hh.2.1
+
+/-- the header algorithm must be on the list derived from the trusted keys -/
+theorem c04_key_allowed (c : Consumer) (x : Ctx) (a : Artefact) (l : List Alg)
+    (hl : allowed x.dep = some l) (h : a.alg ∉ l) : accepts c x a = false := by
+  apply c04_key
+  rw [signed_false_iff]
+  intro k hk hh
+  exact h ((allowed_mem hl a.alg).mpr ⟨k, hk, hh.2.1⟩)
+
 end KM.Token
